@@ -318,6 +318,13 @@ pub fn check(c: &Case) -> R {
     let sp = &c.spec;
     let mut fresh = new_aligner(c);
     let r = check_call("fresh aligner:", &mut fresh, &c.call, sp, c.k, c.w)?;
+    // a clone of the aligner (taken after the call above) is the same aligner: same scoring, clip penalties, k, w
+    {
+        let a_fresh = run_call(&mut new_aligner(c), &c.call, sp, c.k).a;
+        let mut cl = fresh.clone();
+        let a_cl = run_call(&mut cl, &c.call, sp, c.k).a;
+        ensure!(a_cl == a_fresh, "a clone() of the banded aligner (k={} w={} scoring {:?}) answers the call {:?} with {:?}, a fresh aligner of the same configuration with {:?}", c.k, c.w, sp, c.call, a_cl, a_fresh);
+    }
     if !c.history.is_empty() {
         let mut used = new_aligner(c);
         for h in &c.history {
